@@ -28,6 +28,13 @@ type TE struct {
 	V bool   `json:"v,omitempty"` // a path seen through a linked directory: part of the view, not created
 }
 
+// ManyOut: the .fileset of one rule of a buildmany case.
+type ManyOut struct {
+	Out  string   `json:"out"`
+	Outs []string `json:"outs"`
+	Err  string   `json:"err,omitempty"`
+}
+
 type Rule struct {
 	Name   string   `json:"name"`
 	Files  []string `json:"files"`
@@ -49,6 +56,11 @@ type Case struct {
 	Tree   []TE     `json:"tree,omitempty"`
 	TreeID int      `json:"treeid,omitempty"`
 	Rule   *Rule    `json:"rule,omitempty"`
+	// buildmany: several file sets declared in ONE build file, in this order,
+	// built by one Builder in one Build call (one env for all of them); Many
+	// holds what each wrote.
+	Rules []*Rule   `json:"rules,omitempty"`
+	Many  []ManyOut `json:"many,omitempty"`
 	Kind   string   `json:"kind,omitempty"`
 	Fields []string `json:"fields,omitempty"`
 
@@ -663,6 +675,32 @@ func genCases(seed uint64, n int, thorough bool) []Case {
 		add(Case{Stream: "build-links", Op: "build", P: "pkg", Tree: t, TreeID: btid,
 			Rule: &Rule{Name: "fs", Files: []string{}, Select: []string{sel}, Ignore: []string{}}})
 	}
+	// several file sets in ONE build file, built by one Builder in one call: what one
+	// rule lists must not depend on what another rule listed before it (a listing
+	// kept on the Builder's env and shared between rules).  all = "**", docs =
+	// "docs/**" (a sub-directory with files of the package sorting before it), dist =
+	// "**" with an ignore, sub = "docs/sub/**", zz = "zz/**": every order of three of them.
+	manyTree := []string{"pkg/BUILD.caco3", "pkg/aa/x", "pkg/a.txt", "pkg/docs/d1.txt", "pkg/docs/sub/d2.txt",
+		"pkg/docs/zz.md", "pkg/m.txt", "pkg/zz/z.txt"}
+	manyRules := []*Rule{
+		{Name: "all", Files: []string{}, Select: []string{"**"}, Ignore: []string{}},
+		{Name: "docs", Files: []string{}, Select: []string{"docs/**"}, Ignore: []string{}},
+		{Name: "dist", Files: []string{}, Select: []string{"**"}, Ignore: []string{"docs/sub/"}},
+		{Name: "sub", Files: []string{}, Select: []string{"docs/sub/**"}, Ignore: []string{}},
+		{Name: "zz", Files: []string{}, Select: []string{"zz/**", "docs/**"}, Ignore: []string{"*.md"}},
+	}
+	for i := range manyRules {
+		for j := range manyRules {
+			for k := range manyRules {
+				if i == j || j == k || i == k {
+					continue
+				}
+				btid++
+				add(Case{Stream: "build-many", Op: "buildmany", P: "pkg", Tree: treeEntries(manyTree), TreeID: btid,
+					Rules: []*Rule{manyRules[i], manyRules[j], manyRules[k]}})
+			}
+		}
+	}
 	// end-to-end builds with unclean / climbing repo-map keys (the loader's package paths).
 	for _, key := range []string{"pkg", "./pkg", "pkg/", "pkg/../pkg", "/pkg", "pkg//sub", "../vendor/lib", "a/../..", "../../outside",
 		"..", "pkg/../../vendor", "../src/pkg"} {
@@ -806,6 +844,8 @@ func runCase(c *Case, scratch string, built map[int]string) {
 		runBuild(c, scratch)
 	case "buildkey":
 		runBuildKey(c, scratch)
+	case "buildmany":
+		runBuildMany(c, scratch)
 	case "rule":
 		var rule interface{}
 		a, b := c.Fields[0], c.Fields[1]
@@ -951,6 +991,60 @@ func runBuild(c *Case, scratch string) {
 			c.Outs = append(c.Outs, e.Name)
 		}
 		c.Outside = physicallyOutside(filepath.Join(ws, "src"), c.Outs)
+	}
+}
+
+// runBuildMany declares all of c.Rules in pkg/BUILD.caco3 (in the given
+// order) and builds them all with one Builder in one Build call.
+func runBuildMany(c *Case, scratch string) {
+	base := filepath.Join(scratch, fmt.Sprintf("b%d", c.TreeID))
+	os.RemoveAll(base)
+	defer os.RemoveAll(base)
+	ws := filepath.Join(base, "ws")
+	if err := buildTree(ws, c.Tree); err != nil {
+		c.Err = "other:setup: " + err.Error()
+		return
+	}
+	os.WriteFile(filepath.Join(ws, "WORKSPACE.caco3"), []byte("repo_map {\n  Src: {\"pkg\": \"\"},\n}\n"), 0o644)
+	var bf strings.Builder
+	var names []string
+	for _, r := range c.Rules {
+		nm, _ := json.Marshal(r.Name)
+		fmt.Fprintf(&bf, "file_set {\n  Name: %s,\n  Files: %s,\n  Select: %s,\n  Ignore: %s,\n}\n",
+			nm, jsonxStrs(r.Files), jsonxStrs(r.Select), jsonxStrs(r.Ignore))
+		names = append(names, caco3.VerifMakeRelPath(c.P, r.Name))
+	}
+	os.WriteFile(filepath.Join(ws, "src", "pkg", "BUILD.caco3"), []byte(bf.String()), 0o644)
+	log.SetOutput(io.Discard)
+	b, err := caco3.NewBuilder(ws, &caco3.Config{Root: ws})
+	if err != nil {
+		c.Err = "other:builder: " + err.Error()
+		return
+	}
+	if _, errs := b.ReadWorkspace(); errs != nil {
+		c.Err = "other:workspace: " + errs[0].Err.Error()
+		return
+	}
+	if errs := b.Build(names); errs != nil {
+		cls := projErr(errs[0].Err)
+		if strings.HasPrefix(cls, "other:") {
+			cls = "other"
+		}
+		c.Err = "builderr:" + cls
+	}
+	for _, name := range names {
+		m := ManyOut{Out: name, Outs: []string{}}
+		var list []struct{ Name string }
+		bs, err := os.ReadFile(filepath.Join(ws, "out", filepath.FromSlash(name)+".fileset"))
+		if err != nil {
+			m.Err = "other:no output"
+		} else if err := json.Unmarshal(bs, &list); err != nil {
+			m.Err = "other:output: " + err.Error()
+		}
+		for _, e := range list {
+			m.Outs = append(m.Outs, e.Name)
+		}
+		c.Many = append(c.Many, m)
 	}
 }
 
